@@ -88,7 +88,8 @@ func (p Program) Applicable(entry string) bool {
 	case "string", "byte", "reader":
 		return !p.FileOnly
 	case "vue", "frag":
-		return !p.FileOnly && len(p.Opts) == 0
+		// the *Vue methods parse front-matter but know nothing about layouts or options
+		return len(p.Opts) == 0 && !strings.Contains(strings.Join(p.Feat, " "), "layout")
 	}
 	return true
 }
